@@ -168,6 +168,35 @@ def spline_boxes(ctx, gen, inverse=False, prop='C01'):
                 b_ld = tcorr.close(ld[i].item(), -fl, 1e-8, 1e-8)
                 if (ok_out or b_out) and (ok_ld or b_ld):
                     ok_out = ok_ld = True; br += '/backward-error'
+            if ok_out and not ok_ld and not merr[i]:
+                # the log-det as a function of the input can be far more sensitive than the value (log f' near a nearly flat or nearly
+                # vertical bin end: d ld/dx ~ 1e3..1e13): accept a log-det inside the range the MODEL returns on inputs within 8 ulps —
+                # torch's vectorised kernels round the root differently for different batch lengths
+                eps_ = torch.finfo(torch.float64).eps
+                lo_d, hi_d = (box[2], box[3]) if inverse else (box[0], box[1])
+                xs_ = torch.stack([(x[i] * (1.0 + k_ * eps_) + k_ * 1e-300).clamp(lo_d, hi_d) for k_ in (-8, -3, -1, 0, 1, 3, 8)])
+                rr = leandriver.call([S.model_req(fam, xs_, [p_[i:i + 1].expand(xs_.numel(), -1).contiguous() for p_ in params], inverse, False, box, None, cfg=extra)])[0]
+                _, rld, rerr, _ = S.model_result(rr, 'f64')
+                vals = [v for v, e_ in zip(rld, rerr) if not e_ and math.isfinite(v)]
+                if len(vals) >= 2:
+                    span = max(vals) - min(vals)
+                    if min(vals) - 1e-8 - 2.0 * span <= ld[i].item() <= max(vals) + 1e-8 + 2.0 * span:
+                        ok_ld = True; br += '/ld-within-ulp-range'
+                if not ok_ld and inverse:
+                    # inverse direction: the returned log-det is -log f'(root); implementation and model agree on the root only up to the
+                    # accuracy of the root formula (|dx| below, within the output tolerance), so the log-dets may differ by
+                    # (sensitivity of log f' at the root) x |dx|.  The sensitivity is measured on the MODEL's forward map around the root.
+                    r0 = float(my[i]); dx = abs(y[i].item() - r0)
+                    hstep = max(64 * eps_ * abs(r0), 16 * dx, 1e-300)
+                    xr_ = torch.tensor([r0 - hstep, r0 - hstep / 2, r0, r0 + hstep / 2, r0 + hstep], dtype=torch.float64).clamp(box[0], box[1])
+                    r2 = leandriver.call([S.model_req(fam, xr_, [p_[i:i + 1].expand(xr_.numel(), -1).contiguous() for p_ in params], False, False, box, None, cfg=extra)])[0]
+                    _, fld, ferr, _ = S.model_result(r2, 'f64')
+                    fv = [v for v, e_ in zip(fld, ferr) if not e_ and math.isfinite(v)]
+                    width = float(xr_.max() - xr_.min())
+                    if len(fv) >= 3 and width > 0:
+                        slope = (max(fv) - min(fv)) / width
+                        if abs(ld[i].item() - mld[i]) <= 1e-8 + 4.0 * slope * max(dx, 4 * eps_ * abs(r0)):
+                            ok_ld = True; br += '/ld-root-sensitivity'
             ok = ok_out and ok_ld
             ctx.case(key=('box', fam, K, regime, box, i < 2), branch=br, nontrivial=True)
             if not ok:
